@@ -368,7 +368,8 @@ pub fn for_each_tree(sc: &TreeScope, st: &mut Striper, visit: &mut dyn FnMut(&Te
   for l in &sc.leaves {
     let text = model::model_text(l);
     let rs = ReplScope {
-      names2: false,
+      // leaves that carry names also get pairs in which one replacement is named
+      names2: sc.repl_names && matches!(l, Term::Script(_)),
       contents1: &sc.repl_contents1,
       contents2: &sc.repl_contents2,
       names1: sc.repl_names,
